@@ -28,7 +28,7 @@ EXHAUSTIVE = {"quick": "validity predicate over all 65536 values + None",
               "thorough": "validity predicate over all 65536 values + None"}
 
 ROLES = ["router", "net", "meshnm_unconnected", "meshnm_connected", "master0", "master3", "master200",
-         "masterfull"]
+         "masterfull", "net_relay", "masterloaded"]
 ADDR_BY_LEVEL = {0: 0, 1: 0o3, 2: 0o23, 3: 0o423, 4: 0o1423}
 
 
@@ -90,6 +90,7 @@ def gen_cases(ctx):
                "burst": rng.choice([1, 1, 2, 3])}
     yield from gen_followed_by_invalid(ctx)
     yield from gen_fragment_pairs(ctx)
+    yield from gen_lookups_of_loaded(ctx)
     # systematic: every type x a few lengths, for self-addressed and routed frames, master & node
     for role in ("master3", "net", "meshnm_connected", "router"):
         for dcls in ("self", "child", "parentside", "self/own-origin"):
@@ -132,6 +133,20 @@ def gen_followed_by_invalid(ctx):
                    "frames": frames[k:k + 64], "seed": 77 + k, "phantom": True, "burst": 2}
 
 
+LOADED = [a for a in net_ref.all_addresses() if a and a != net_ref.DEFAULT_ADDR][:20]
+
+
+def gen_lookups_of_loaded(ctx):
+    """lookups that name the IDs / addresses of a table the master loaded from its JSON file"""
+    frames = []
+    for i, ad in enumerate(LOADED):
+        frames.append({"to": None, "dcls": "self", "ocls": "valid", "type": 198, "len": 2, "reserved": 0,
+                       "id": 700 + i, "pipe": 1, "body_hex": bytes([ad & 0xFF, ad >> 8]).hex()})
+        frames.append({"to": None, "dcls": "self", "ocls": "valid", "type": 196, "len": 1, "reserved": 0,
+                       "id": 750 + i, "pipe": 1, "body_hex": bytes([1 + i]).hex()})
+    yield {"part": "frames", "role": "masterloaded", "level": 0, "frames": frames, "seed": 5, "phantom": True, "burst": 1}
+
+
 def gen_fragment_pairs(ctx):
     """well-formed FIRST fragments followed by LAST fragments whose reserved byte (the original
     message type) takes system values - 131 NETWORK_EXT_DATA is handed over specially - and by
@@ -157,8 +172,10 @@ def make_node(rig, role, level, seed):
     radio = rig.radio("dut")
     if role == "router":
         o = rig.driver(radio, cls=m["rf24_network"].RF24NetworkRoutingOnly, node_address=ADDR_BY_LEVEL[level])
-    elif role == "net":
+    elif role in ("net", "net_relay"):
         o = rig.driver(radio, cls=m["rf24_network"].RF24Network, node_address=ADDR_BY_LEVEL[level])
+        if role == "net_relay":
+            o.multicast_relay = True  # re-broadcasts the multicasts it receives (levels 0..4)
     elif role.startswith("meshnm"):
         o = rig.driver(radio, cls=m["rf24_mesh"].RF24MeshNoMaster, node_id=9)
         if role == "meshnm_connected":
@@ -171,6 +188,23 @@ def make_node(rig, role, level, seed):
         rng = random.Random(seed)
         pool = [a for a in net_ref.all_addresses() if a and a != net_ref.DEFAULT_ADDR]
         rng.shuffle(pool)
+        if role == "masterloaded":
+            # a restarted master: the table was saved (JSON) by the previous incarnation and is
+            # loaded into the fresh object
+            import os, tempfile
+            prev = rig.driver(rig.radio("prev"), cls=m["rf24_mesh"].RF24Mesh, node_id=0)
+            for i, ad in enumerate(LOADED):
+                prev.set_address(1 + i, ad)
+            d = tempfile.mkdtemp(prefix="c15_", dir="/dev/shm")
+            fn = os.path.join(d, "dhcp.json")
+            try:
+                prev.save_dhcp(fn)
+                o.load_dhcp(fn)
+            finally:
+                if os.path.exists(fn):
+                    os.unlink(fn)
+                os.rmdir(d)
+            return radio, o
         if role == "masterfull":
             # every slot below the master and below the origins the generator uses is leased:
             # address requests cannot be served
@@ -228,6 +262,8 @@ def build(fr, me, rng):
     if "fixed_origin" in fr:
         frm = fr["fixed_origin"]  # fragments of one message come from one origin
     body = bytes((fr["id"] + i) & 0xFF for i in range(fr["len"]))
+    if "body_hex" in fr:
+        body = bytes.fromhex(fr["body_hex"])
     raw = bytes([frm & 0xFF, (frm >> 8) & 0xFF, to & 0xFF, (to >> 8) & 0xFF, fr["id"] & 0xFF,
                  (fr["id"] >> 8) & 0xFF, fr["type"], fr["reserved"]]) + body
     return raw, (frm, to)
